@@ -138,6 +138,12 @@ theorem VT_int {v : Val} {b : Nat} {s : Bool} (h : VT S P v (.int b s)) : ∃ x,
   | enumV h1 _ _ => simp [isEnumTy] at h1
   | structV h1 _ _ => simp [isStructTy] at h1
 
+theorem VT_float {v : Val} {b : Nat} (h : VT S P v (.float b)) : ∃ x, v = .float b x := by
+  cases h with
+  | float _ x => exact ⟨x, rfl⟩
+  | enumV h1 _ _ => simp [isEnumTy] at h1
+  | structV h1 _ _ => simp [isStructTy] at h1
+
 theorem VT_tuple {v : Val} {ts : List Ty} (h : VT S P v (.tuple ts)) : ∃ vs, v = .tuple vs ∧ VTs S P vs ts := by
   cases h with
   | tuple h1 => exact ⟨_, rfl, h1⟩
